@@ -250,6 +250,13 @@ class Real(object):
         self.level_of = {}
 
     def make(self, d, label, level):
+        try:
+            return self._make(d, label, level)
+        except Exception as ex:  # every descriptor of the pools is a well-formed element
+            raise BaseBroken([("element|valid-element-rejected|%s" % {"O": "option", "K": "command-option", "A": "argument"}.get(d[0], "command-name"),
+                               "constructing the element %r raised %r" % (d, ex), {"element": list(d)})])
+
+    def _make(self, d, label, level):
         Argument, CommandName, CommandOption, Option = self._cls
         if d[0] == "O":
             e = Option(d[1], d[2])
@@ -484,6 +491,20 @@ def apply_real(builder, op, R, step, level):
     return labels, None
 
 
+def _elements_must_construct(on_broken):
+    def deco(fn):
+        def wrapped(*a, **k):
+            try:
+                return fn(*a, **k)
+            except BaseBroken as e:
+                return on_broken(e)
+        wrapped.__name__ = fn.__name__
+        wrapped.__doc__ = fn.__doc__
+        return wrapped
+    return deco
+
+
+@_elements_must_construct(lambda e: (e.fails, True, {"accepted": 0, "rejected_or_replacing": 0}))
 def check_last_step(base_id, ops, frozen=False):
     """replays ops[:-1] unchecked, then runs ops[-1] with every check.
     -> (failures [(signature, what, detail)], diverged: bool, info dict)"""
@@ -584,6 +605,7 @@ def check_last_step(base_id, ops, frozen=False):
     return fails, False, info
 
 
+@_elements_must_construct(lambda e: e.fails)
 def check_ctor(base_id, els):
     """ArgsFormat(list of elements, base) -> failures"""
     from clikit.api.args.exceptions import CannotAddArgumentException, CannotAddOptionException
